@@ -62,6 +62,15 @@ SETS["paths"] = {
     "Namespace.j2": _NS,
 }
 
+# two templates with the same file name in different directories, both included (names are paths, not base names)
+SETS["dup_names"] = {
+    "Any.j2": "{% include 'header.j2' %}\n{% include 'parts/header.j2' %}\n{% include 'parts/deeper/header.j2' %}\nUSER Any {{ T.full_name }}\n" + _BODY,
+    "header.j2": "// top-level header for {{ T.short_name }}",
+    "parts/header.j2": "// parts header for {{ T.short_name }}",
+    "parts/deeper/header.j2": "// deeper header for {{ T.short_name }}",
+    "Namespace.j2": _NS,
+}
+
 SUPPORT_NAME = {"c": "serialization.j2", "cpp": "serialization.j2", "py": "nunavut_support.j2"}
 
 SUPPORT_SETS = {
@@ -87,3 +96,19 @@ def usable_for(lang: str, name: str) -> bool:
     if name == "blanky":
         return lang in ("c", "cpp", "py")
     return True
+
+
+def builtin_copy(lang: str) -> typing.Dict[str, str]:
+    """The user's templates directory is a copy of the built-in templates of the language (the usual starting point)."""
+    import importlib
+
+    mod = importlib.import_module("nunavut.lang.%s.templates" % lang)
+    base = os.path.dirname(mod.__file__)
+    out = {}
+    for d, _dirs, fs in os.walk(base):
+        for fn in fs:
+            if fn.endswith((".j2", ".js", ".css")) and "__pycache__" not in d:
+                p = os.path.join(d, fn)
+                with open(p, "r", encoding="utf-8") as f:
+                    out[os.path.relpath(p, base)] = f.read()
+    return out
